@@ -595,6 +595,40 @@ func c12BuilderScript(c *ctx) {
 	c12String(c, out, "built-strings", true)
 }
 
+// c12BuilderReuse: use a builder, Clear it, build function + arguments again and parse the string with the real
+// call-arguments parser: the result must be exactly (function, arguments), as for a fresh builder.
+func c12BuilderReuse(c *ctx) {
+	b := txDataBuilder.NewBuilder()
+	b.Func("first").Bytes([]byte{1, 2}).Int(7)
+	rounds := 1 + c.rng.Intn(3)
+	for r := 0; r < rounds; r++ {
+		b.Clear()
+		f := "fn" + string(rune('A'+c.rng.Intn(26)))
+		args := c12RandArgs(c)
+		b.Func(f)
+		for _, a := range args {
+			b.Bytes(a)
+		}
+		out := b.ToString()
+		c.note("builder-reuse/"+out, true)
+		c.count("builder/reused-roundtrips")
+		pf, pa, err := parsers.NewCallArgsParser().ParseData(out)
+		ok := err == nil && pf == f && len(pa) == len(args)
+		if ok {
+			for i := range args {
+				if !bytes.Equal(pa[i], args[i]) {
+					ok = false
+				}
+			}
+		}
+		if !ok {
+			c.fail("monitor", "builder-roundtrip-after-clear", fmt.Sprintf("builder reused after Clear(): built %q for function %q with %d arguments; the call-arguments parser returned function %q, %d arguments, err=%v", out, f, len(args), pf, len(pa), err),
+				map[string]interface{}{"function": f, "args": fmt.Sprintf("%x", args), "built": out, "rounds_of_clear": r + 1})
+			return
+		}
+	}
+}
+
 // ---- ESDT transfer parser ----
 type c12EsdtIn struct {
 	snd, rcv []byte
@@ -851,6 +885,10 @@ func runC12(c *ctx) {
 	// builder scripts
 	for i := 0; i < nRT/2; i++ {
 		c12BuilderScript(c)
+	}
+	// a REUSED builder (used, cleared, used again) must round-trip like a fresh one
+	for i := 0; i < nRT/4+8; i++ {
+		c12BuilderReuse(c)
 	}
 
 	// ---- 4. ESDT transfer parser ----
